@@ -1,5 +1,7 @@
 -- GENERATED. Root of the regenerated fact tables.
 import MpsGen.Alg
+import MpsGen.Codec
+import MpsGen.Guards
 import MpsGen.Hash
 import MpsGen.Nonce
 import MpsGen.OT
@@ -8,4 +10,5 @@ import MpsGen.Pool
 import MpsGen.Protocols
 import MpsGen.Session
 import MpsGen.Sig
+import MpsGen.Start
 import MpsGen.ZK
